@@ -40,6 +40,31 @@ def check(ctx: Ctx) -> None:
             o.rule = "C11.R5"
     ctx.rule_text["C11.R5"] = ctx.rule_text.pop("C04.R3")
     ctx.floors["C11.R5"] = ctx.floors.pop("C04.R3")
+    # "no accepted append can make later scans mis-filter": the bounds an append stores must survive the manifest round trip
+    # losslessly (a truncated upper bound prunes the file for values it does hold)
+    from .c13 import r4 as c13_r4
+    ctx.shared(c13_r4, "C13.R4", "C11.R6", "bounds written by an accepted append are lossless")
+    handles_fresh(ctx)
+
+
+def handles_fresh(ctx: Ctx, rid: str = "C11.R7") -> None:
+    ctx.rule(rid, "a table handle is never handed out twice: create_table / load_table keep no registry and return the Table they "
+             "constructed in this call (a handle carries per-handle caches - the Arrow schema by schema id - that are only valid "
+             "for the table it was opened on; a dropped and re-created table at the same path must get a new handle)", 2)
+    from .common import resolve_value, state_writes
+    for q in ("iceberg.create_table", "iceberg.load_table"):
+        f = ctx.fn(q)
+        g = ctx.cfg(f)
+        sw = state_writes(ctx, f)
+        ctx.ob(rid, f, "factory keeps no state", sw[0][0] if sw else None, not sw,
+               "no module-level / class-level store" if not sw else f"stores {sw[0][1]}: handles (and their caches) outlive the table "
+               "they were opened on", text="state")
+        rets = [n for n in g.nodes if n.kind == "return" and n.id in g.reachable() and n.ast is not None and n.ast.value is not None]  # type: ignore[union-attr]
+        for r in rets:
+            srcs = resolve_value(ctx, f, r.ast.value, r.id)  # type: ignore[union-attr]
+            ok = bool(srcs) and all(isinstance(x, ast.Call) and (dotted(x.func) or "").split(".")[-1] == "Table" for x, _a in srcs)
+            ctx.ob(rid, f, "returns the Table constructed in this call", r, ok,
+                   "fresh handle" if ok else f"`{r.text}` can return a handle that was not constructed by this call (a remembered one)")
 
 
 def _keys_of_var(ctx: Ctx, f: FunctionInfo, scope: ast.AST, v: str, depth: int = 0) -> Set[str]:
